@@ -2,11 +2,13 @@
 TLC paths into stepped-driver schedules, replay on the real code, predicate-mode trace validation by TLC."""
 import json
 import os
+import re
 
 import vlib
 
 MOD = "server/AcceptDispatch.tla"
 TMOD = "server/AcceptDispatchTrace.tla"
+SMOD = "server/AcceptDispatchStrict.tla"
 VARIANTS = ["IgnoreUnknownIdx", "UnlinkOnDeregister", "ResumeClearsBackoff", "IncBeforeSend", "NoClearOnLimit", "ResumeSkipsAcceptAll",
             "BackoffNeverReregisters", "RoundRobinStuck", "ConnErrIsFatal", "WakeSkipsAcceptAll", "PauseKeepsRegistered"]
 
@@ -221,7 +223,120 @@ def trace_cfg(path, consts, invariants):
         f.write("\n".join(lines) + "\n")
 
 
-def replay_and_validate(ctx, scheds, invariants, tag, sig_fn=None):
+def strict_cfg(path, consts):
+    trace_cfg(path, consts, [])
+    txt = open(path).read().replace("INVARIANTS \n", "").replace("POSTCONDITION TraceAccepted", "POSTCONDITION TraceAccepted\nCONSTRAINT Unfinished")
+    open(path, "w").write(txt)
+
+
+def strict_modelled(run):
+    """The specification keeps ONE dead generation per worker index; a worker that dies again while connections of its
+    previous dead generation are still in progress is outside the model.  Steps outside AcceptDispatch.tla's alphabet
+    (worker stop messages, readiness scripts: Worker.tla's business) are marked `unsupported` by the driver."""
+    last = None
+    for e in run:
+        if e.get("ev") == "unsupported":
+            return False
+        if e.get("ev") == "env" and e.get("do") == "Kill" and last is not None:
+            i = e["i"]
+            if last["alive"][i] and last["oldInprog"][i]:
+                return False
+        if "st" in e:
+            last = e["st"]
+    return True
+
+
+def strict_validate_group(ctx, consts, runs, tag, env=None):
+    """One TLC run of AcceptDispatchStrict over the concatenated strict traces of `runs` (same constants).
+    Returns (number of runs fully explained, index of the first run that is not, its first unmatched event or None)."""
+    cfgp = os.path.join(ctx.workdir, "%s.cfg" % tag)
+    strict_cfg(cfgp, consts)
+    path = os.path.join(ctx.workdir, "%s.ndjson" % tag)
+    flat, bounds = [], []
+    for k, r in enumerate(runs):
+        bounds.append(len(flat))
+        flat.extend(r)
+    vlib.write_ndjson(path, flat)
+    e = {"TRACE": path, "STRICT_DEBUG": "0"}
+    if env:
+        e.update(env)
+    res = vlib.run_tlc(SMOD, cfgp, workers=1, xmx="4g", timeout=1200, env=e, dfs=True, tag="%s-%d" % (tag, os.getpid()))
+    m = re.search(r'<<"STRICT_MATCHED", (\d+), (\d+)>>', res.stdout)
+    if not m:
+        import sys
+        sys.stdout.write("\n".join(res.stdout.splitlines()[-30:]) + "\n")
+        raise vlib.ToolError("strict trace validation (%s) produced no verdict" % tag)
+    n, total = int(m.group(1)), int(m.group(2))
+    if n == total:
+        return len(runs), None, None
+    idx = max(k for k, b in enumerate(bounds) if b <= n)
+    return idx, idx, flat[n]
+
+
+def strict_validate(ctx, scheds, strict_runs, tag, budget):
+    """Strict-mode conformance: is every recorded execution of the real accept loop a behaviour of AcceptDispatch.tla?
+    Rejections are DRIFT (reported, never a verdict about a property)."""
+    groups, skipped = {}, 0
+    order = sorted(range(len(strict_runs)),
+                   key=lambda i: (0 if not str(scheds[i].get("origin", "")).startswith("seeded random") else 1, i))
+    taken = 0
+    for i in order:
+        run = strict_runs[i]
+        if not strict_modelled(run):
+            skipped += 1
+            continue
+        if budget is not None and taken >= budget:
+            break
+        r0 = run[0]
+        groups.setdefault((r0["W"], r0["Limit"], r0["L"], tuple(r0["uds"])), []).append(i)
+        taken += 1
+    ok, drift = 0, []
+    for key, idxs in groups.items():
+        consts = {"W": key[0], "Limit": key[1], "L": key[2], "Uds": list(key[3])}
+        gtag = "%s-strict-%d%d%du%s" % (tag, key[0], key[1], key[2], "".join(map(str, key[3])))
+        rest = list(idxs)
+        for _round in range(4):
+            if not rest:
+                break
+            n_ok, bad, ev = strict_validate_group(ctx, consts, [strict_runs[i] for i in rest], gtag)
+            ok += n_ok
+            if bad is None:
+                break
+            drift.append((rest[bad], ev))
+            rest = rest[bad + 1:]
+    ctx.cov["strict_mode_runs_accepted"] = ctx.cov.get("strict_mode_runs_accepted", 0) + ok
+    ctx.cov["strict_mode_drift"] = ctx.cov.get("strict_mode_drift", 0) + len(drift)
+    ctx.cov["strict_mode_runs_outside_model"] = ctx.cov.get("strict_mode_runs_outside_model", 0) + skipped
+    for (i, ev) in drift[:3]:
+        print("DRIFT spec=AcceptDispatch first-unmatched=%s (schedule from %s)" % (
+            json.dumps({k: v for k, v in (ev or {}).items() if k != "st"})[:300], scheds[i].get("origin")), flush=True)
+    return ok, drift, groups
+
+
+def strict_selftest(ctx, scheds, strict_runs, groups, tag):
+    """Binding vacuity guard: a recorded trace with ONE corrupted field (an availability bit in a measured state) and one
+    with a yield point removed must be rejected by the strict specification."""
+    for key, idxs in groups.items():
+        for i in idxs:
+            run = strict_runs[i]
+            its = [k for k, e in enumerate(run) if e.get("ev") == "iterend" and e.get("has_st")]
+            pts = [k for k, e in enumerate(run) if e.get("ev") == "pt" and e.get("kind") == "sent"]
+            if not its or not pts:
+                continue
+            consts = {"W": key[0], "Limit": key[1], "L": key[2], "Uds": list(key[3])}
+            bad1 = json.loads(json.dumps(run))
+            bad1[its[-1]]["st"]["avail"][0] = not bad1[its[-1]]["st"]["avail"][0]
+            bad2 = [e for k, e in enumerate(run) if k != pts[0]]
+            for name, bad in (("flipped availability bit", bad1), ("removed send yield point", bad2)):
+                n_ok, b, _ev = strict_validate_group(ctx, consts, [bad], "%s-selftest" % tag)
+                if b is None:
+                    raise vlib.ToolError("strict trace spec accepted a corrupted trace (%s): the binding is vacuous" % name)
+            ctx.cov["strict_selftest"] = "corrupted traces rejected (flipped availability bit; removed send yield point)"
+            return
+    ctx.cov["strict_selftest"] = "not run (no suitable trace)"
+
+
+def replay_and_validate(ctx, scheds, invariants, tag, sig_fn=None, strict_budget=0):
     """Runs the schedules on the real code and lets TLC evaluate `invariants` (names in AcceptDispatchTrace)
     on every recorded state.  Returns (#runs accepted, list of (schedule, record, predicate))."""
     if not scheds:
@@ -229,7 +344,8 @@ def replay_and_validate(ctx, scheds, invariants, tag, sig_fn=None):
     sfile = os.path.join(ctx.workdir, "%s-schedules.ndjson" % tag)
     tfile = os.path.join(ctx.workdir, "%s-trace.ndjson" % tag)
     vlib.write_ndjson(sfile, scheds)
-    r = vlib.run_harness("vsrv", ["replay", "--schedules", sfile, "--trace", tfile], timeout=1800)
+    xfile = os.path.join(ctx.workdir, "%s-strict.ndjson" % tag)
+    r = vlib.run_harness("vsrv", ["replay", "--schedules", sfile, "--trace", tfile] + (["--strict", xfile] if strict_budget != 0 else []), timeout=1800)
     summ = json.loads(r.stdout.strip().splitlines()[-1])
     ctx.cov.setdefault("impl_steps", 0)
     ctx.cov.setdefault("anchors_missed", 0)
@@ -257,6 +373,13 @@ def replay_and_validate(ctx, scheds, invariants, tag, sig_fn=None):
             i = idxs[ri]
             rec = runs[i][min(pos, len(runs[i]) - 1)]
             bad.append((i, rec, pred))
+    if strict_budget != 0:
+        sruns = vlib.split_runs(vlib.read_ndjson(xfile))
+        if len(sruns) != len(scheds):
+            raise vlib.ToolError("harness recorded %d strict runs for %d schedules" % (len(sruns), len(scheds)))
+        _ok, _drift, groups = strict_validate(ctx, scheds, sruns, tag, None if strict_budget < 0 else strict_budget)
+        if "strict_selftest" not in ctx.cov:
+            strict_selftest(ctx, scheds, sruns, groups, tag)
     return accepted_total, bad, runs
 
 
@@ -372,7 +495,7 @@ PROP_OF_PRED = lambda pred: pred.split("_")[1] if pred and pred.startswith("T_")
 
 def run_check(ctx, *, design, edge_cfgs, negs, invariants, corpus, max_paths_quick=400, max_paths_thorough=6000,
               thorough_design=(), live=(), neg_live=(), nontrivial=None, signature=None, rule="", random_flavour="core",
-              random_quick=150, random_thorough=4000, probe=True):
+              random_quick=150, random_thorough=4000, probe=True, strict_quick=300):
     """design: configs checked exhaustively by TLC (must hold); edge_cfgs: subset whose state graph is turned into
     schedules; negs: {cfg: [expected predicates]} (each also yields a counterexample schedule); invariants: the
     T_* predicates of AcceptDispatchTrace that decide this property; corpus: corpus files to replay."""
@@ -418,7 +541,8 @@ def run_check(ctx, *, design, edge_cfgs, negs, invariants, corpus, max_paths_qui
             if not sch.get("probed"):
                 sch["steps"] = list(sch["steps"]) + probe_epilogue(sch)
                 sch["probed"] = True
-    accepted, bad, runs = replay_and_validate(ctx, scheds, invariants, ctx.prop.lower())
+    accepted, bad, runs = replay_and_validate(ctx, scheds, invariants, ctx.prop.lower(),
+                                              strict_budget=(strict_quick if ctx.quick else -1))
     ctx.cov["traces_validated_against_impl"] += accepted
     bad = confirm_rejections(ctx, scheds, bad, invariants)
     for (i, rec, pred) in bad:
